@@ -220,10 +220,13 @@ func (e *Executor) parseQuery(
 	doc, err := parser.ParseQueryWithTokenLimit(&ast.Source{Input: query}, e.parserTokenLimit)
 	if err != nil {
 		gqlErr, ok := err.(*gqlerror.Error)
-		if ok {
-			errcode.Set(gqlErr, errcode.ParseFailed)
-			return nil, gqlerror.List{gqlErr}
+		if !ok {
+			// the parser also fails with plain errors (exceeded token limit); the document it
+			// returns next to one is a truncated prefix and must not be validated or executed
+			gqlErr = gqlerror.Wrap(err)
 		}
+		errcode.Set(gqlErr, errcode.ParseFailed)
+		return nil, gqlerror.List{gqlErr}
 	}
 	stats.Parsing.End = graphql.Now()
 
